@@ -20,6 +20,7 @@ func init() {
 			c.run("C19-R7", "MUST-PASS/GUARD-DOM/WHO-WRITES: the bridge hands traffic on unchanged in both directions, from installed pipes, with the matching helper", c19Bridge)
 			c.run("C19-R8", "LAUNCH: the helper's exit watcher is started with go", c19Launch)
 			c.run("C19-S1", "shared with C05-R4: the filter gives a finished or declined session up, so the next rz/sz header starts a new one", c05R4)
+			c.run("C19-S2", "shared with C05-R2: typed input is withheld only while the session is transferring (not merely while its pointer is set)", c05R2)
 			c.run("C19-R4", "SIBLING: decline condition and input gate agree", c19R4)
 			c.run("C19-R5", "WHO-WRITES: the 'cleaned' flag", c19R5)
 		})
